@@ -50,13 +50,14 @@ int main(int argc, char **argv) {
     legacy::PassManager PM; PM.add(createLoopSimplifyPass()); PM.run(*M); // single latch per loop: lets the scheduler merge at latches
     mods[kv.first.str()] = std::move(M);
   }
-  long capMB = jint(*spec, "mem_mb", 6000);
+  long capMB = jint(*spec, "mem_mb", 4000);
   { struct rlimit rl; rl.rlim_cur = rl.rlim_max = (rlim_t)capMB << 20; setrlimit(RLIMIT_AS, &rl); }
   const json::Array *wits = spec->getArray("witnesses");
   if (!wits) { errs() << "no witnesses\n"; return 2; }
   for (auto &wv : *wits) {
     const json::Object &w = *wv.getAsObject();
     auto t0 = std::chrono::steady_clock::now();
+    g_timedOut = false; g_deadline = t0 + std::chrono::milliseconds(jint(w, "max_ms", jint(*spec, "max_ms", 120000)));
     TT = Terms();
     Interp I; I.maxSteps = jint(w, "max_steps", 400000000L);
     json::Object out; out["id"] = jstr(w, "id");
